@@ -297,7 +297,7 @@ impl Prop for C13 {
         Ok(())
     }
     fn rule(&self) -> String {
-        "histories: generated (site |lat|<=45, GMT within 3 h, angle method, start date anchored before Mar 10 / Dec 20 / Feb 15 of generated years incl. century and leap years or uniform, length 3..30); plus an enumerated sweep (quick: every triple centred on Mar 16-25, on Dec 30 - Jan 1 and on Feb 27 - Mar 1 of every year 1600-2399 at 8 of 24 fixed sites per year; thorough: every consecutive triple of 1600-2399 at 24 fixed sites). evaluations counts triples. Non-trivial = a generated history containing a hot triple (RA-wrap day, month/year end, Feb 28/29) counted by case hash, plus every swept triple (distinct by construction)".into()
+        "histories: generated (site |lat|<=45, GMT within 3 h, angle method, start date anchored before Mar 10 / Dec 20 / Feb 15 of generated years incl. century and leap years or uniform, length 3..30); plus an enumerated sweep (quick: every triple centred on Mar 16-25, on Dec 30 - Jan 1 and on Feb 27 - Mar 1 of every year 1600-2399 at 8 of 24 fixed sites per year; thorough: every consecutive triple of 1600-2399 at 24 fixed sites). evaluations counts triples. One generated history in 6 is centred on a day whose local midnight is within 12 minutes of the RA wrap; every history is preceded by a sibling history (offset/longitude a few seconds away, partly overlapping dates). Non-trivial = a generated history containing a hot triple (RA-wrap day, month/year end, Feb 28/29) counted by case hash, plus every swept triple (distinct by construction)".into()
     }
     fn assumptions(&self) -> Vec<String> {
         vec![
